@@ -169,17 +169,21 @@ func (s *Session) Broadcast(sender *Participant, protoMsg hwebsocket.ProtoMsg) {
 }
 
 func (s *Session) BroadcastTo(sender *Participant, protoMsg hwebsocket.ProtoMsg, participantIds ...uint32) {
-	participants := s.GetParticipantsByIDs(participantIds...)
-	isParticipantHandled := make(map[uint32]struct{}, len(participantIds))
-
 	msg, err := hwebsocket.MsgFromProto(protoMsg)
 	if err != nil {
 		logs.WithTag("message", protoMsg).Debug(err)
 		return
 	}
 
-	for _, p := range participants {
-		if p == sender {
+	// Like Broadcast, deliver under the participant lock: a participant that
+	// has left the session must not be served from an earlier snapshot.
+	s.participantMutex.RLock()
+	defer s.participantMutex.RUnlock()
+
+	isParticipantHandled := make(map[uint32]struct{}, len(participantIds))
+	for _, id := range participantIds {
+		p, ok := s.participants[id]
+		if !ok || p == sender {
 			continue
 		}
 
